@@ -18,6 +18,11 @@ ASSUMPTIONS = [
 ]
 
 GOL = "cd tools/gol && go run . -repo /repo -out ../../lean/TensorModel/Generated/Core.lean"
+GLUE = "cd tools/gluex && go run . -repo /repo -out ../../lean/TensorModel/Generated/Glue.lean"
+GLUE_TRUST = ("tools/gluex (go/ast -> table of the engine / method / package-function glue: per function the id of its body with the "
+              "operation's own name and the element-type class abstracted; the abstraction is textual on identifiers and string literals) - "
+              "Props/C17glue proves one pattern per family from the regenerated table, which is what entitles the model to one "
+              "operation-parameterised definition per family")
 GOL_TRUST = ("tools/gol (Go -> Lean do-notation, statement by statement; functions outside its subset are not emitted) and "
              "lean/TensorModel/GoLib.lean (meaning of the Go primitives: int = unbounded Int, slices = lists with value semantics "
              "(aliasing-checked), index / slice / division panics, error values); the regenerated definitions are proved equal to "
@@ -51,13 +56,15 @@ PROPS = {
         "rule": "parents of rank 1-3 (quick) / 1-4 (thorough), dims 1-4, 8 element types, 3 constructors; views = slice / lazy transpose / slice of transpose / slice of slice; one of 9 scenarios per program: Memset, Zero, Copy into the view, write through the parent, Clone + writes on both sides, Materialize, SafeT, CopyTo, Copy out; the parent's and the view's full dumps (elements by At, raw window) are compared after the writes",
     },
     "C06": {
-        "lean_modules": ["C06"],
-        "pre_cmds": [GOL],
-        "trusted_extra": [GOL_TRUST],
+        "lean_modules": ["C06", "C17glue"],
+        "pre_cmds": [GLUE, GOL],
+        "trusted_extra": [GLUE_TRUST, GOL_TRUST],
         "rule": "every arithmetic op (add sub mul div mod pow) x 14 numeric element types x {tensor-tensor, tensor-scalar, scalar-tensor} x {package function, method} with rotating shapes (rank 0-4 incl. scalar, (1), (1,1), row/column vectors) and operand layouts {contiguous, lazily transposed, offset slice, stepped slice, materialised}; all 25 layout pairs on every shape; refusals (bool/string operands, mismatched dtypes and shapes); value sets with overflow, negatives, zero divisors (floats), NaN/Inf; model terms are evaluated with Go's own operators and compared bit-exactly with the library's result; every operand is dumped after the call",
     },
     "C07": {
-        "lean_modules": ["C07"],
+        "lean_modules": ["C07", "C17glue"],
+        "pre_cmds": [GLUE],
+        "trusted_extra": [GLUE_TRUST],
         "rule": "every arithmetic and comparison op x {safe, unsafe, reuse, incr, reuse aliasing the first / second operand, incr aliasing an operand} x {TT, TS, ST} x operand layouts as C06 x destination layouts {contiguous, sliced view, lazily transposed}; identity of the returned tensor and full dumps (elements + raw window) of result, every operand, the destination and the first parent after the call",
     },
     "C08": {
@@ -73,11 +80,15 @@ PROPS = {
         "rule": '1-4 operands x base shapes of rank 1-4 (vector-like shapes included) x every valid axis (concat 0..rank-1, stack 0..rank, repeat 0..rank-1 and AllAxes) x operand layouts {contiguous, lazily transposed, offset slice, stepped slice, materialised, contiguous row-slice} independently per operand x {function, method} for Concat/Stack/Repeat, Hstack, Vstack, RepeatReuse (right, wrong and non-contiguous reuse) x counts {one broadcast 0-3, per-entry 0-3, exactly one survivor} x u8,i16,f32,f64,c128,str; every program runs the calculator (Shape.Concat/Shape.Repeat) on the same arguments first; malformed stream (axes rank, rank+1, -1, -2, -3; wrong count length; off-axis/rank mismatches; permuted equal-size shapes; the same tensor repeated; rank-0; vector-axis-1 extension; masked Concat operands); after each op: result dump, returned-tensor identity, opsame (metadata + mask of every operand unchanged), dumps of every pre-existing tensor',
     },
     "C11": {
-        "lean_modules": ["C11"],
+        "lean_modules": ["C11", "C17glue"],
+        "pre_cmds": [GLUE],
+        "trusted_extra": [GLUE_TRUST],
         "rule": "6 comparisons x all ordered (for eq/ne: all comparable, incl. bool, complex, string) element types x {TT, TS, ST} x {bool result, AsSameType, unsafe, bool reuse, same-type reuse} x operand layouts as C06, values with ties, NaN, extremes; refusals of unordered / mismatched types and shapes",
     },
     "C12": {
-        "lean_modules": ["C12"],
+        "lean_modules": ["C12", "C17glue"],
+        "pre_cmds": [GLUE],
+        "trusted_extra": [GLUE_TRUST],
         "rule": "15 unary operations (neg inv square cube exp tanh log log2 log10 sqrt cbrt invsqrt abs sign clamp) and Dense.Apply x 16 element types (accepted and refused ones) x {safe, unsafe, reuse, incr, reuse aliasing the operand} x operand/destination layouts as C06/C07; value sets with 0, negatives, extremes, NaN/Inf; the model's term is evaluated with the same Go maths routine the kernel names and compared bit-exactly",
     },
     "C14": {
@@ -95,10 +106,10 @@ PROPS = {
         "rule": "the programs of the C01, C02, C03, C04, C05 and C13 generators that build a column-major tensor (both constructors: column-major over the raw backing, converting a row-major sequence) + the arithmetic / comparison / min-max / unary matrices with every operand and the reuse / incr destination drawn independently from {column-major raw, column-major converting, lazily transposed column-major, row-major contiguous, lazily transposed, sliced}, at least one operand column-major; results are compared with the specification on logical contents (= the row-major run)",
     },
     "C17": {
-        "lean_modules": ["C17", "C17compat"],
-        "pre_cmds": ["cd tools/gox && go run . -repo /repo -out ../../lean/TensorModel/Generated"],
+        "lean_modules": ["C17", "C17compat", "C17glue"],
+        "pre_cmds": [GLUE, "cd tools/gox && go run . -repo /repo -out ../../lean/TensorModel/Generated"],
         "rule": "X: every FuncDecl of internal/execution/generic_*.go (2 808 kernels) and every case arm of the eng_*.go dispatchers (103 methods, 1 208 arms) is regenerated into Lean tables on every run and proved to be the instance, for its own element type, of the type-generic template of its family (decide +kernel per chunk); conversions: ToMat64 / FromMat64 / native accessors x every element type x layouts {contiguous, lazily transposed, sliced, stepped, materialised, column-major raw / converting} x value sets with negatives, extremes, NaN / Inf (terms tof64 / cvt.<dt> evaluated by Go's own conversions); H: the arithmetic, comparison, unary / Apply and reduction matrices (every operation x every element type x kernel variants vv / vs / sv / incr / iter / iter-incr / same / recv reached through layouts and option modes), results compared with Go's own operators",
-        "trusted_extra": ["tools/gox (go/ast -> MiniGo tables: type abstraction, alpha-renaming) and the meaning of MiniGo constructs; operator tokens are names, evaluated by the Go compiler in the harness"],
+        "trusted_extra": [GLUE_TRUST, "tools/gox (go/ast -> MiniGo tables: type abstraction, alpha-renaming) and the meaning of MiniGo constructs; operator tokens are names, evaluated by the Go compiler in the harness"],
     },
     "C18": {
         "lean_modules": ["C18"],
